@@ -44,9 +44,11 @@ func zzChooseRef(name string) zzRef {
 	}
 }
 
+var zzPkgKind = "Provider"
+
 func zzProviders(s *kube.Store) (names []string, sources []string) {
 	s.Each(func(group, kind, _ string, name string, doc map[string]any) {
-		if group == zzPkgGroup && kind == "Provider" {
+		if group == zzPkgGroup && kind == zzPkgKind {
 			spec, _ := doc["spec"].(map[string]any)
 			src, _ := spec["package"].(string)
 			names = append(names, name)
@@ -62,13 +64,28 @@ func zzProviders(s *kube.Store) (names []string, sources []string) {
 // one object is created; running the installer again changes nothing.
 //
 //gosym:harness
-//gosym:cover same-repo-installed different-repo custom-name
+//gosym:cover same-repo-installed different-repo custom-name configuration-or-function
 func HarnessC20Installer() {
 	s := kube.New()
 	s.Register(&v1.Provider{}, &v1.ProviderList{}, zzPkgGroup, "Provider")
 	s.Register(&v1.Configuration{}, &v1.ConfigurationList{}, zzPkgGroup, "Configuration")
 	s.Register(&v1.Function{}, &v1.FunctionList{}, zzPkgGroup, "Function")
 
+	// the kind of package requested (and installed already)
+	pkgKind := zz.Choose("package.kind", 3)
+	zzPkgKind = []string{"Provider", "Configuration", "Function"}[pkgKind]
+	if pkgKind > 0 {
+		zz.Cover("configuration-or-function")
+	}
+	newInstaller := func(img string) *PackageInstaller {
+		switch pkgKind {
+		case 1:
+			return NewPackageInstaller(nil, []string{img}, nil)
+		case 2:
+			return NewPackageInstaller(nil, nil, []string{img})
+		}
+		return NewPackageInstaller([]string{img}, nil, nil)
+	}
 	req := zzChooseRef("req")
 
 	nExisting := zz.Choose("existing", zz.Bound(2, 3))
@@ -89,13 +106,24 @@ func HarnessC20Installer() {
 		for _, o := range pre {
 			zz.Assume(!(o.ref.host == e.ref.host && o.ref.repo == e.ref.repo))
 		}
-		p := &v1.Provider{ObjectMeta: metav1.ObjectMeta{Name: e.name}}
-		p.Spec.Package = e.ref.String()
-		s.Put(p)
+		switch pkgKind {
+		case 0:
+			p := &v1.Provider{ObjectMeta: metav1.ObjectMeta{Name: e.name}}
+			p.Spec.Package = e.ref.String()
+			s.Put(p)
+		case 1:
+			p := &v1.Configuration{ObjectMeta: metav1.ObjectMeta{Name: e.name}}
+			p.Spec.Package = e.ref.String()
+			s.Put(p)
+		case 2:
+			p := &v1.Function{ObjectMeta: metav1.ObjectMeta{Name: e.name}}
+			p.Spec.Package = e.ref.String()
+			s.Put(p)
+		}
 		pre = append(pre, e)
 	}
 
-	pi := NewPackageInstaller([]string{req.String()}, nil, nil)
+	pi := newInstaller(req.String())
 	err := pi.Run(context.Background(), s)
 	if err != nil {
 		zz.Observe("err", err.Error())
@@ -143,7 +171,7 @@ func HarnessC20Installer() {
 			before++
 		}
 	}
-	err = NewPackageInstaller([]string{req.String()}, nil, nil).Run(context.Background(), s)
+	err = newInstaller(req.String()).Run(context.Background(), s)
 	zz.Assert("second-run-no-error", err == nil)
 	after := 0
 	for _, c := range s.Writes(false) {
